@@ -2,10 +2,12 @@
    sumbool map to OCaml's; N, Z, positive, nat stay the extracted inductive types. *)
 From Coq Require Import Extraction ExtrOcamlBasic.
 From Coq Require Import ZArith NArith List.
-From Lithium Require Import PyBase TcRecord Util Testcase Driver Minimize.
+From Lithium Require Import PyBase TcRecord Util Testcase Driver Minimize PyLines Markers Splitters.
 Extraction Language OCaml.
 Extraction "model.ml"
   Util.divide_rounding_up Util.is_power_of_two Util.largest_power_of_two_smaller_than
   Testcase.tc_len Testcase.slice_xlat Testcase.rmslice Testcase.copy
   TcRecord.content
-  Driver.run Driver.run_check_only Driver.replay Minimize.minimize Minimize.no_post.
+  Driver.run Driver.run_check_only Driver.replay
+  PyLines.splitlines Markers.find_markers Splitters.load_line Splitters.load_char Splitters.load_symbol
+  Splitters.DEFAULT_CUT_AFTER Splitters.DEFAULT_CUT_BEFORE Minimize.minimize Minimize.no_post.
